@@ -12,6 +12,12 @@ open GoldilocksVerif
 @[inline] def and_si256 (a b : V4) : V4 := V4.map2 (· &&& ·) a b
 @[inline] def andnot_si256 (a b : V4) : V4 := V4.map2 (fun x y => ~~~x &&& y) a b
 @[inline] def xor_si256 (a b : V4) : V4 := V4.map2 (· ^^^ ·) a b
+/-- not used by the pinned source; present so that a rewrite using them stays translatable (validated when used) -/
+@[inline] def or_si256 (a b : V4) : V4 := V4.map2 (· ||| ·) a b
+@[inline] def cmpeq_epi64 (a b : V4) : V4 := V4.map2 (fun x y => Lane.mask (x == y)) a b
+@[inline] def cmpeq_epi32 (a b : V4) : V4 :=
+  V4.map2 (fun x y => (if x.extractLsb' 32 32 == y.extractLsb' 32 32 then 0xFFFFFFFF00000000#64 else 0#64) |||
+                      (if x.extractLsb' 0 32 == y.extractLsb' 0 32 then 0x00000000FFFFFFFF#64 else 0#64)) a b
 @[inline] def cmpgt_epi64 (a b : V4) : V4 := V4.map2 Lane.cmpgt64 a b
 @[inline] def cmpgt_epi32 (a b : V4) : V4 := V4.map2 Lane.cmpgt32 a b
 @[inline] def srli_epi64 (a : V4) (k : Nat) : V4 := V4.map (· >>> k) a
